@@ -270,44 +270,41 @@ def _r3(ctx):
         okg = o['o'] == 'arg' and field_path(o['p']) == ['value']
     rep.check(okg, 'R3', 'get_value-reads-own-cell', where(sb_get), 'returns SharedValue::get_value(self.value)',
               'StandardBasis::get_value does not simply return its own cell\'s value', 'undecidable-shape')
-    # set_value: old := get_value(self) dominates the cell write
-    ts = Tracer(sb_set)
-    cs = CFG(sb_set)
-    old_writes = []
-    for bi, si, pl, w in places_in_body(sb_set):
-        if w and field_path(pl['p'])[-1:] == ['old']:
-            old_writes.append((bi, si))
-    wcalls = [(bi, t) for bi, t in sb_set.calls() if call_matches(t, 'SharedValue::set_value')]
-    rep.check(len(old_writes) == 1, 'R3', 'set_value-captures-old-once', where(sb_set),
-              'one assignment to self.old', 'self.old is assigned %d times in set_value' % len(old_writes))
-    rep.check(len(wcalls) == 1, 'R3', 'set_value-writes-cell-once', where(sb_set), 'one cell write',
-              'set_value writes the cell %d times' % len(wcalls))
-    if len(old_writes) == 1 and len(wcalls) == 1:
-        obi, osi = old_writes[0]
-        st = sb_set.blocks[obi]['stmts'][osi]
-        src = ts.origin(st['rv']['a']) if st['rv']['r'] == 'use' else {'o': 'rvalue'}
-        oks = False
-        why = 'self.old is not assigned from the cell\'s current value'
-        if src['o'] == 'call' and not src['p']:
-            t = src['term']
-            if is_trait_call(t, 'Basis', 'get_value') or call_matches(t, 'SharedValue::get_value'):
-                a0 = ts.origin(t['args'][0])
-                if a0['o'] == 'arg' and a0['l'] == 1 and field_path(a0['p']) in ([], ['value']):
-                    oks = True
-        rep.check(oks, 'R3', 'old-is-pre-write-value', where(sb_set, obi, osi),
-                  'self.old := get_value(self) (value before the write)', why)
-        wbi, wt = wcalls[0]
-        dom = cs.dominates(obi, wbi)
-        rep.check(dom, 'R3', 'capture-dominates-write', where(sb_set, wbi),
-                  'the capture (bb%d) dominates the cell write (bb%d)' % (obi, wbi),
-                  'the cell can be written before/without capturing the old value')
-        # no get-after-write: the get_value call must not be reachable from the write
-        if src['o'] == 'call':
-            rep.check(src['bb'] not in cs.reachable_after(wbi), 'R3', 'capture-before-write', where(sb_set, wbi),
-                      'read precedes write', 'the old value is read after the cell was already overwritten')
-        a0 = ts.origin(wt['args'][0])
-        rep.check(a0['o'] == 'arg' and a0['l'] == 1 and field_path(a0['p']) == ['value'], 'R3',
-                  'write-targets-own-cell', where(sb_set, wbi), 'writes self.value', 'set_value writes a different cell')
+    # set_value, path-sensitively: on EVERY path the pre-write value of the cell is captured in self.old before the
+    # (single) cell write, and the write targets the handle's own cell
+    from ..celltables import recorder
+    from ..sym import SYM, SymEx
+    sx = SymEx(f, models=[recorder({'basis::SharedValue::set_value': 'cellwrite'})])
+    outs = sx.run(sb_set, [SYM('self'), SYM('x')])
+    if rep.check(bool(outs) and not sx.aborted, 'R3', 'set_value-loop-free', where(sb_set), '%d paths' % len(outs),
+                 'set_value is not loop-free', 'undecidable-shape'):
+        bad_capture = bad_writes = bad_target = 0
+        for o in outs:
+            seq = []
+            for e in o.effects:
+                if e[0] == ('rec', 'cellwrite'):
+                    seq.append(('w', e[1][0]))
+                elif e[0] == SYM('self.old'):
+                    seq.append(('old', e[1]))
+            writes = [i for i, x in enumerate(seq) if x[0] == 'w']
+            caps = [i for i, x in enumerate(seq) if x[0] == 'old']
+            if len(writes) != 1:
+                bad_writes += 1
+                continue
+            if seq[writes[0]][1] != SYM('self.value'):
+                bad_target += 1
+            good = [i for i in caps if i < writes[0] and seq[i][1] == SYM('self.value.value')]
+            later = [i for i in caps if i > writes[0]]
+            if not good or later or (caps and caps[-1] not in good):
+                bad_capture += 1
+        rep.check(bad_writes == 0, 'R3', 'set_value-writes-cell-once', where(sb_set), 'one cell write on each of %d paths' % len(outs),
+                  '%d path(s) of set_value write the cell zero or several times' % bad_writes)
+        rep.check(bad_capture == 0, 'R3', 'old-is-pre-write-value', where(sb_set),
+                  'on every path self.old := value of the cell before the write',
+                  'on %d of %d paths of set_value the cell is overwritten without first capturing its current value in self.old '
+                  '(or old is set to something else): a later reset_value restores a stale value' % (bad_capture, len(outs)))
+        rep.check(bad_target == 0, 'R3', 'write-targets-own-cell', where(sb_set), 'writes self.value', 'set_value writes a different cell')
+        rep.sample('set_value: %d paths, each: old := cell value; one write to self.value' % len(outs))
     # reset_value writes exactly self.old to self.value
     trs = Tracer(sb_reset)
     rcalls = [(bi, t) for bi, t in sb_reset.calls() if call_matches(t, 'SharedValue::set_value')]
